@@ -19,8 +19,8 @@ HIER = [  # concrete class first
     ("mouette/mesh/datatypes/surface.py", "SurfaceMesh._Connectivity", "PolyLine._Connectivity"),
     ("mouette/mesh/datatypes/linear.py", "PolyLine._Connectivity", None),
 ]
-# history alphabet: the public accessors defined by the volume class itself + the inherited ones its own code calls
-INHERITED_PUBLIC = ["edge_id", "face_id", "face_to_edges", "clear"]
+# history alphabet: the FULL public API of the volume connectivity (every public method of the hierarchy after
+# override resolution: volume.py, then the inherited surface.py and linear.py accessors, and `clear`)
 
 
 def _is_self_attr(node):
@@ -162,9 +162,12 @@ def extract_guards():
     for lvl, (qual, meths) in enumerate(classes):
         for name, fn in meths.items():
             bodies[ids[(lvl, name)]] = _events_of(fn, lvl, resolve, set(caches), synth)
-    own_public = [n for n in classes[0][1] if not n.startswith("_")]
+    public = []
+    for _, meths in classes:
+        for n in meths:
+            if not n.startswith("_") and n not in public: public.append(n)
     alphabet = []
-    for n in own_public + INHERITED_PUBLIC:
+    for n in public:
         i = resolve(n, -1)
         if i not in alphabet: alphabet.append(i)
     init_attrs = _attrs_initialised(bodies, resolve("__init__", -1), caches)
